@@ -16,6 +16,7 @@ ITN(4);
 ITN(5);
 HIST_REG(IT2_UpVirtual, F_ITER, IterSubj<2, UpVirtual>);
 HIST_REG(STAT, F_STATIC, StaticSubj);
+HIST_REG(TMP, F_TEMP, TempSubj);
 namespace
 {
     struct LLheap : LowLevelSubj<fm::heap_allocator>
